@@ -1,4 +1,5 @@
 import PicoProofs.EndToEnd
+import PicoProofs.GoTieApi
 import PicoProofs.Tie
 /-
 C05 — Unmarshal succeeds only on well-formed input it has fully consumed.
@@ -44,6 +45,15 @@ theorem C05_unmarshal_nil_iff_wellformed (S : Schema) (hS : S.supported = true) 
   refine ⟨d, m, hr, ?_⟩
   rw [hiff, ← specDec_ok_iff_wellFormed S id data m0]
   rfl
+
+/-- the same about the Go source itself: the translated `Unmarshal` returns nil exactly on
+well-formed input -/
+theorem C05_source_unmarshal_nil_iff_wellformed (S : Schema) (hS : S.supported = true) (id : Nat) (data : Bytes) (m0 : Val)
+    (hm0 : Gen2.shMsg S id m0 = true) :
+    ∃ m err, GoTie.srcUnmarshal S id data m0 = .ok (m, err) ∧
+      (err = none ↔ wellFormed S (2 * data.length + 2) id data = true) := by
+  obtain ⟨d, m, hr, hiff⟩ := C05_unmarshal_nil_iff_wellformed S hS id data m0 hm0
+  exact ⟨m, d.err, GoTie.srcUnmarshal_of S id data m0 d m hr, hiff⟩
 
 /-- an error detected at any depth is never lost: if the specification rejects (at whatever depth
 the offending record sits), the machine's final error is non-nil -/
